@@ -365,3 +365,182 @@ def rule_lookup(ctx):
 def _short(r):
     s = repr(r)
     return s if len(s) < 90 else s[:87] + "..."
+
+
+def rule_checkall(ctx):
+    """R-CHECKALL: on every path on which a checker function accepts, every part of the construct has been examined"""
+    fx = ctx.fx
+    res = RuleResult("R-CHECKALL", "path-sensitive completeness of the type checker: in every `check` / `check_template` function of the Fun crate, on "
+                     "every path that ends in building `Ok(..)`, each field of the checked construct that carries a term, a type, type "
+                     "arguments, arguments, clauses or a context has been read (handed to a call, compared, matched) or written (an "
+                     "annotation filled in) - per variant for enums. An accepting path that never looks at such a field accepts the "
+                     "construct whatever that part is (a fast path that skips, e.g., the type arguments)")
+    TREE = ("::terms::Term", "::types::Ty", "::types::TypeArgs", "::arguments::Arguments", "::clause::Clause", "::context::TypingContext",
+            "::context::NameContext", "::context::TypeContext", "::declarations::", "::def::Def")
+    n = 0
+
+    def tree_field(fd):
+        c = fd.get("core") or fd.get("adt") or ""
+        return c.startswith("fun::") and any(x in c for x in TREE)
+
+    for k, f in sorted(fx.fns.items()):
+        if f["crate"] != "fun" or "{closure" in k or "{promoted" in k:
+            continue
+        nm = k.split("::")[-1]
+        if nm not in ("check", "check_template"):
+            continue
+        adt = f.get("impl_self_adt")
+        A = fx.adts.get(adt or "")
+        if not A:
+            continue
+        fn = Fn(f)
+        # aliases of self (moves / borrows / derefs without field projection)
+        alias = {1}
+        changed = True
+        while changed:
+            changed = False
+            for b in f["blocks"]:
+                for s in b["stmts"]:
+                    if s["k"] != "assign" or s["lhs"]["p"]:
+                        continue
+                    rv = s["rv"]
+                    o = rv.get("op")
+                    pl = rv.get("pl") or (o.get("pl") if isinstance(o, dict) else None)
+                    if rv["k"] in ("use", "ref", "cast") and pl and pl["l"] in alias and not any(isinstance(x, dict) and "n" in x for x in pl["p"]) \
+                            and s["lhs"]["l"] not in alias:
+                        alias.add(s["lhs"]["l"])
+                        changed = True
+
+        def first_field(pl):
+            if pl and pl["l"] in alias:
+                fs = [x["n"] for x in pl["p"] if isinstance(x, dict) and "n" in x and not str(x.get("of", "")).startswith(("core::", "alloc::"))]
+                if fs:
+                    return fs[0]
+            return None
+        # locals that merely hold (a borrow / copy of) a field: binding a field in a pattern is not yet looking at it
+        falias = {}
+        changed = True
+        while changed:
+            changed = False
+            for b in f["blocks"]:
+                for s in b["stmts"]:
+                    if s["k"] != "assign" or s["lhs"]["p"] or s["lhs"]["l"] in falias or s["lhs"]["l"] in alias:
+                        continue
+                    rv = s["rv"]
+                    o = rv.get("op")
+                    pl = rv.get("pl") or (o.get("pl") if isinstance(o, dict) else None)
+                    if rv["k"] not in ("use", "ref", "cast") or not pl:
+                        continue
+                    x = first_field(pl)
+                    if x is None and pl["l"] in falias:
+                        x = falias[pl["l"]]
+                    if x:
+                        falias[s["lhs"]["l"]] = x
+                        changed = True
+
+        def looked_at(pl):
+            if not pl:
+                return None
+            x = first_field(pl)
+            if x:
+                return x
+            return falias.get(pl["l"])
+        uses = {}
+        for bi, b in enumerate(f["blocks"]):
+            u = set()
+            for s in b["stmts"]:
+                if s["k"] != "assign":
+                    continue
+                x = first_field(s["lhs"]) if s["lhs"]["p"] else None
+                if x:
+                    u.add(x)            # an annotation written into the construct
+                rv = s["rv"]
+                if rv["k"] in ("use", "ref", "cast", "rawptr"):
+                    continue            # plain binding: see falias
+                for o in [rv.get("op"), rv.get("a"), rv.get("b")] + list(rv.get("ops", [])):
+                    if isinstance(o, dict) and o.get("pl"):
+                        x = looked_at(o["pl"])
+                        if x:
+                            u.add(x)
+                if rv.get("pl"):
+                    x = looked_at(rv["pl"])
+                    if x:
+                        u.add(x)
+            t = b["term"]
+            if t["k"] == "call" and t.get("callee_name") not in ("drop", "drop_in_place"):
+                for a in t["args"]:
+                    if a.get("pl"):
+                        x = looked_at(a["pl"])
+                        if x:
+                            u.add(x)
+            uses[bi] = u
+        # a loop that examines a field does so for every element; a path that runs it zero times has nothing left to examine:
+        # credit the uses inside a natural loop to its header
+        from .termination import _natural_loops
+        for h, body in _natural_loops(fn, f).items():
+            for b_ in body:
+                uses[h] = uses[h] | uses[b_]
+        # discriminant switches on self: block -> {variant index: successor}
+        defs = fn.defs()
+        self_switch = {}
+        for bi, b in enumerate(f["blocks"]):
+            t = b["term"]
+            if t["k"] != "switch":
+                continue
+            d = t.get("discr") or t.get("op") or {}
+            pl = d.get("pl") if isinstance(d, dict) else None
+            if not pl:
+                continue
+            for dd in defs.get(pl["l"], []):
+                rv = dd.get("rv") or {}
+                if rv.get("k") == "discr" and rv.get("pl") and rv["pl"]["l"] in alias and not any(isinstance(x, dict) for x in rv["pl"]["p"]):
+                    self_switch[bi] = t
+        variants = A["variants"] if A["kind"] == "enum" else [A["variants"][0]]
+        for vi, var in enumerate(variants):
+            required = sorted(fd["name"] for fd in var["fields"] if tree_field(fd))
+            if not required:
+                continue
+            # forward must-use dataflow on the CFG restricted to this variant at switches on self
+            nb = len(f["blocks"])
+
+            def succs(b):
+                if A["kind"] == "enum" and b in self_switch:
+                    t = self_switch[b]
+                    targets = t.get("targets") or []
+                    chosen = [tg for val, tg in targets if val == vi]
+                    if chosen:
+                        return chosen
+                    other = t.get("otherwise")
+                    return [other] if other is not None else fn.succ[b]
+                return fn.succ[b]
+            IN = {0: set()}
+            work = [0]
+            while work:
+                b = work.pop()
+                out = IN[b] | uses[b]
+                for s_ in succs(b):
+                    if s_ not in fn.reach:
+                        continue
+                    new = out if s_ not in IN else IN[s_] & out
+                    if s_ not in IN or new != IN[s_]:
+                        IN[s_] = new
+                        work.append(s_)
+            for bi, b in enumerate(f["blocks"]):
+                if bi not in IN:
+                    continue
+                for s in b["stmts"]:
+                    rv = s.get("rv") or {}
+                    if s["k"] == "assign" and s["lhs"]["l"] == 0 and not s["lhs"]["p"] and rv.get("k") == "agg" and rv.get("variant") == "Ok":
+                        n += 1
+                        have = IN[bi] | uses[bi]
+                        missing = [x for x in required if x not in have]
+                        ikey = "%s%s@Ok" % (k, "::" + var["name"] if A["kind"] == "enum" else "")
+                        if missing:
+                            res.inst(ikey, s["sp"]["file"], s["sp"]["line"], "violation")
+                            res.violate(ikey, "%s accepts %s%s on a path (Ok at line %d) that never looks at its %s: the construct is accepted whatever "
+                                        "that part is" % (k, adt.split("::")[-1], "::" + var["name"] if A["kind"] == "enum" else "", s["sp"]["line"], ", ".join(missing)),
+                                        s["sp"]["file"], s["sp"]["line"])
+                        else:
+                            res.inst(ikey, s["sp"]["file"], s["sp"]["line"], "ok", "examines " + ", ".join(required), nontrivial=True)
+    res.require_floor(15)
+    return res
